@@ -532,7 +532,7 @@ func (cx *CheckCtx) finish(level string, rule string, assumptions []string) int 
 		groups[k] = append(groups[k], v)
 	}
 	sort.Strings(gkeys)
-	evdir := filepath.Join(verifDir(), "evidence", "replays")
+	evdir := filepath.Join(evidenceDir(), "replays")
 	os.MkdirAll(evdir, 0o777)
 	confirmed := 0
 	unrepro := 0
@@ -663,8 +663,8 @@ func (cx *CheckCtx) finish(level string, rule string, assumptions []string) int 
 		"assumptions": assumptions, "wall_s": time.Since(cx.T0).Seconds(), "violations": confirmed,
 	}
 	b, _ := json.MarshalIndent(ev, "", " ")
-	os.MkdirAll(filepath.Join(verifDir(), "evidence"), 0o777)
-	os.WriteFile(filepath.Join(verifDir(), "evidence", cx.Prop+".json"), b, 0o666)
+	os.MkdirAll(evidenceDir(), 0o777)
+	os.WriteFile(filepath.Join(evidenceDir(), cx.Prop+".json"), b, 0o666)
 	fmt.Printf("%s %s: steps=%d evaluations=%d distinct=%d traces=%d violations=%d known=%d wall=%.1fs exit=%d\n",
 		cx.Prop, cx.Tier, cx.Steps, cx.Evals, len(cx.Distinct), cx.Traces, confirmed, len(kseen), time.Since(cx.T0).Seconds(), exit)
 	return exit
@@ -726,4 +726,16 @@ func runCheck(id, tier string) int {
 		return 2
 	}
 	return plan(cx)
+}
+
+// evidenceDir is /verif/evidence; a run against another tree than /repo (VERIF_REPO, used to try seeded changes) writes
+// its evidence and replay files elsewhere, so that the committed evidence always describes /repo itself.
+func evidenceDir() string {
+	if alt := os.Getenv("VERIF_REPO"); alt != "" && alt != "/repo" {
+		if os.Getenv("VP_RUN_REPO") == alt {
+			return filepath.Join(verifDir(), "evidence") // a snapshot of /repo made by the run helper
+		}
+		return filepath.Join(scratchBase(), "verif_evidence_alt")
+	}
+	return filepath.Join(verifDir(), "evidence")
 }
